@@ -1019,5 +1019,133 @@ theorem singleVia_error {c : Config α} {g : List α} (hf : c.fwd.AdjConsistent)
         exact Or.inr (Or.inr (svLoop_error T _ _ _ _ _ (fun p hp => mem_interQueue hp) hk'))
       · cases h
 
+/-! ### concrete configurations over ℚ (non-vacuity and witnesses) -/
+
+namespace Example
+
+/-- distance model in metres, cost = raw distance, Dijkstra (weight factor 0), no limits -/
+def mk (nV : Nat) (edges : List (EdgeRec ℚ)) (outAdj inAdj : List (List Nat))
+    (frontier : List (FrontierM ℚ)) : Config ℚ where
+  nV := nV
+  edges := edges
+  outAdj := outAdj
+  inAdj := inAdj
+  feats := [{ name := "distance", kind := .dist .meters, init := 0 }]
+  trav := .distance .meters
+  access := .noAccess
+  cost := { indices := [0], weights := [1], vehicleRates := [.raw], networkRates := [.zero],
+            agg := .sum }
+  frontier := frontier
+  term := .combined []
+  reverse := false
+  gc := List.replicate nV 0
+  wf := some 0
+
+/-- diamond 0 → {1, 2} → 3: edges 0: 0→1 (1), 1: 1→3 (1), 2: 0→2 (2), 3: 2→3 (2) -/
+def diamond : Config ℚ :=
+  mk 4 [⟨0, 1, 1⟩, ⟨1, 3, 1⟩, ⟨0, 2, 2⟩, ⟨2, 3, 2⟩] [[0, 2], [1], [3], []] [[], [0], [2], [1, 3]] []
+
+/-- decidable observation of a result: the edge-id sequences of the routes -/
+def idsOf (r : Except ErrKind (AlgResult ℚ)) : Except ErrKind (List (List Nat)) :=
+  match r with
+  | .ok res => .ok (res.routes.map (·.map (·.edge)))
+  | .error k => .error k
+
+theorem ok_of_idsOf {r : Except ErrKind (AlgResult ℚ)} {l : List (List Nat)}
+    (h : idsOf r = .ok l) : ∃ res, r = .ok res ∧ res.routes.map (·.map (·.edge)) = l := by
+  cases r with
+  | error k => cases h
+  | ok res => simp only [idsOf, Except.ok.injEq] at h; exact ⟨res, rfl, h⟩
+
+theorem adj_of_lists (c : Config ℚ)
+    (h : ∀ v, v < c.nV + 1 → ∀ e ∈ c.inst.incident v, c.inst.termV e = v)
+    (hlen : c.outAdj.length ≤ c.nV ∧ c.inAdj.length ≤ c.nV) : c.AdjConsistent := by
+  intro v e he
+  by_cases hv : v < c.nV + 1
+  · exact h v hv e he
+  · exfalso
+    have h1 : c.outAdj.length ≤ v := by omega
+    have h2 : c.inAdj.length ≤ v := by omega
+    simp only [Config.inst] at he
+    split at he
+    · rw [List.getD_eq_getElem?_getD, List.getElem?_eq_none h2] at he; simp at he
+    · rw [List.getD_eq_getElem?_getD, List.getElem?_eq_none h1] at he; simp at he
+
+theorem diamond_adj : diamond.fwd.AdjConsistent ∧ (diamond.rev []).AdjConsistent := by
+  constructor
+  · apply adj_of_lists
+    · decide +kernel
+    · decide
+  · apply adj_of_lists
+    · decide +kernel
+    · decide
+
+/-- the witness of the repaired `AcceptAll` defect: diamond, k = 2 returns both routes, best first -/
+theorem diamond_accept_all :
+    idsOf (singleVia diamond (List.replicate 4 0) simAcceptAll .exact 0 3 2 [0, 1, 3] [3, 1, 0] [1, 2]) =
+      .ok [[0, 1], [2, 3]] := by
+  decide +kernel
+
+/-- before the repair `is_similar` was `true` for `AcceptAll`: that setting returns one route -/
+theorem diamond_reject_all :
+    idsOf (singleVia diamond (List.replicate 4 0) (fun _ _ => .ok true) .exact 0 3 2 [0, 1, 3] [3, 1, 0]
+      [1, 2]) = .ok [[0, 1]] := by
+  decide +kernel
+
+/-- k = 0 drains the queue and returns nothing; k = 1 returns the shortest route without a pop -/
+theorem diamond_k0_k1 :
+    idsOf (singleVia diamond (List.replicate 4 0) simAcceptAll .exact 0 3 0 [0, 1, 3] [3, 1, 0] [1, 2]) =
+      .ok [] ∧
+    idsOf (singleVia diamond (List.replicate 4 0) simAcceptAll .exact 0 3 1 [0, 1, 3] [3, 1, 0] []) =
+      .ok [[0, 1]] := by
+  decide +kernel
+
+/-- 0 -e0→ 1 -e1→ 4 and 0 -e2→ 2 -e3→ 3 -e4→ 4, the turn (e3, e4) is restricted -/
+def restrictedTurn : Config ℚ :=
+  mk 5 [⟨0, 1, 1⟩, ⟨1, 4, 1⟩, ⟨0, 2, 2⟩, ⟨2, 3, 2⟩, ⟨3, 4, 2⟩]
+    [[0, 2], [1], [3], [4], []] [[], [0], [2], [3], [1, 4]] [.turnRestriction [(3, 4)]]
+
+/-- the same network without the short branch: the only route takes the restricted turn -/
+def restrictedTurnOnly : Config ℚ :=
+  mk 5 [⟨0, 1, 1⟩, ⟨1, 4, 1⟩, ⟨0, 2, 2⟩, ⟨2, 3, 2⟩, ⟨3, 4, 2⟩]
+    [[2], [], [3], [4], []] [[], [], [2], [3], [4]] [.turnRestriction [(3, 4)]]
+
+/-- 0 -e0→ 1 -e1→ 2 with the pair (e1, e0) "restricted": no route ever takes e1 before e0 -/
+def reversedPair : Config ℚ :=
+  mk 3 [⟨0, 1, 1⟩, ⟨1, 2, 1⟩] [[0], [1], []] [[], [0], [1]] [.turnRestriction [(1, 0)]]
+
+theorem restrictedTurn_adj : restrictedTurn.fwd.AdjConsistent ∧ (restrictedTurn.rev []).AdjConsistent := by
+  constructor
+  · apply adj_of_lists
+    · decide +kernel
+    · decide
+  · apply adj_of_lists
+    · decide +kernel
+    · decide
+
+/-- single-via returns the alternative `[e2, e3, e4]`, which takes the restricted turn (e3, e4) … -/
+theorem restrictedTurn_singleVia :
+    idsOf (singleVia restrictedTurn (List.replicate 5 0) simAcceptAll .exact 0 4 2 [0, 1, 2, 4]
+      [4, 1, 3, 0] [1, 2]) = .ok [[0, 1], [2, 3, 4]] := by
+  decide +kernel
+
+/-- … a turn the plain search refuses: where it is the only way, Dijkstra reports "no path" -/
+theorem restrictedTurn_plain :
+    idsOf (restrictedTurnOnly.runVertex 0 (some 4) [0, 2, 3]) = .error .noPath := by
+  decide +kernel
+
+/-- the plain search answers the query `0 → 2` on `reversedPair` … -/
+theorem reversedPair_plain :
+    idsOf (reversedPair.fwd.runVertex 0 (some 2) [0, 1, 2]) = .ok [[0, 1]] := by
+  decide +kernel
+
+/-- … but single-via fails with the reverse search's "no path" -/
+theorem reversedPair_singleVia :
+    idsOf (singleVia reversedPair (List.replicate 3 0) simAcceptAll .exact 0 2 2 [0, 1, 2] [2, 1] []) =
+      .error .noPath := by
+  decide +kernel
+
+end Example
+
 end Ksp
 end Compass
